@@ -455,7 +455,7 @@ fn raw(c: &RawCase) -> Verdict {
 // seed corpus (committed under /verif/corpus/<target>/)
 // ---------------------------------------------------------------------------
 
-const TARGETS: [(Fmt, &str); 3] = [(Fmt::Npy, "npy_read"), (Fmt::Npz, "npz_read"), (Fmt::St, "safetensors_read")];
+const TARGETS: [(Fmt, &'static str); 3] = [(Fmt::Npy, "npy_read"), (Fmt::Npz, "npz_read"), (Fmt::St, "safetensors_read")];
 
 fn corpus_files() -> Vec<(Fmt, String, Vec<u8>)> {
     let t = |dt: DT, shape: &[usize], vals: &[u64]| TensorCase { dt, base_shape: shape.to_vec(), vals: vals.to_vec(), ops: vec![] };
@@ -526,22 +526,20 @@ fn corpus_cases(fmt: Fmt) -> Vec<RawCase> {
 // thorough tier: libFuzzer campaign
 // ---------------------------------------------------------------------------
 
-fn fuzz_campaign(ck: &mut Check, fmt: Fmt, target: &str, runs: u64, max_time_s: u64) {
+struct FuzzRun {
+    fmt: Fmt,
+    target: &'static str,
+    /// Err = infrastructure problem (inconclusive)
+    outcome: Result<(std::process::Output, PathBuf), String>,
+}
+
+/// Build all targets once, then run the selected ones side by side.
+fn fuzz_campaign(ck: &mut Check, selected: &[(Fmt, &'static str)], runs: u64, max_time_s: u64) {
     use std::process::Command;
-    let name = format!("fuzz-{target}");
-    let raw_name = format!("raw-{}", fmt.name());
     let root = vcore::verif_root();
     let fuzz_dir = root.join("fuzz");
     if !fuzz_dir.join("Cargo.toml").exists() {
-        ck.inconclusive(format!("{name}: {} not found", fuzz_dir.display()));
-        return;
-    }
-    let work = root.join("harness/target/vc-serialize/fuzz-work").join(target);
-    let artifacts = work.join("artifacts");
-    let live_corpus = work.join("corpus");
-    let _ = std::fs::remove_dir_all(&work);
-    if std::fs::create_dir_all(&artifacts).is_err() || std::fs::create_dir_all(&live_corpus).is_err() {
-        ck.inconclusive(format!("{name}: cannot create {}", work.display()));
+        ck.inconclusive(format!("fuzz: {} not found", fuzz_dir.display()));
         return;
     }
     if !fuzz_dir.join("Cargo.lock").exists() {
@@ -549,46 +547,77 @@ fn fuzz_campaign(ck: &mut Check, fmt: Fmt, target: &str, runs: u64, max_time_s: 
     }
     let cargo = |args: &[&str]| {
         let mut c = Command::new("cargo");
-        c.arg("+nightly").arg("fuzz").args(args).current_dir(&fuzz_dir).env("CARGO_NET_OFFLINE", "true").env("VCORE_ROOT", &root);
+        // --fuzz-dir: cargo-fuzz otherwise insists on a parent (non-fuzz) cargo project
+        c.arg("+nightly").arg("fuzz").args(args).arg("--fuzz-dir").arg(&fuzz_dir);
+        c.current_dir(&fuzz_dir).env("CARGO_NET_OFFLINE", "true").env("VCORE_ROOT", &root);
         c
     };
-    let build = cargo(&["build", target]).output();
-    match build {
-        Ok(o) if o.status.success() => {}
-        Ok(o) => {
-            let err = String::from_utf8_lossy(&o.stderr);
-            let tail: String = err.lines().rev().take(6).collect::<Vec<_>>().into_iter().rev().collect::<Vec<_>>().join(" | ");
-            ck.inconclusive(format!("{name}: `cargo +nightly fuzz build` failed: {tail}"));
-            return;
-        }
-        Err(e) => {
-            ck.inconclusive(format!("{name}: cannot run cargo fuzz: {e}"));
-            return;
+    for (_, target) in selected {
+        match cargo(&["build"]).arg(target).output() {
+            Ok(o) if o.status.success() => {}
+            Ok(o) => {
+                ck.inconclusive(format!("fuzz-{target}: `cargo +nightly fuzz build` failed: {}", tail(&String::from_utf8_lossy(&o.stderr), 6)));
+                return;
+            }
+            Err(e) => {
+                ck.inconclusive(format!("fuzz-{target}: cannot run cargo fuzz: {e}"));
+                return;
+            }
         }
     }
-    let seed = ck.seed().wrapping_add(1).max(1); // libFuzzer: seed 0 = random
-    let out = cargo(&["run", target])
-        .arg(&live_corpus)
-        .arg(corpus_dir(fmt))
-        .arg("--")
-        .arg(format!("-runs={runs}"))
-        .arg(format!("-max_total_time={max_time_s}"))
-        .arg(format!("-seed={}", seed as u32))
-        .arg("-len_control=0")
-        .arg("-max_len=4096")
-        .arg("-timeout=30")
-        .arg("-rss_limit_mb=6144")
-        .arg("-malloc_limit_mb=12288")
-        .arg("-print_final_stats=1")
-        .arg(format!("-artifact_prefix={}/", artifacts.display()))
-        .output();
-    let out = match out {
-        Ok(o) => o,
+    let seed = (ck.seed().wrapping_add(1) as u32).max(1); // libFuzzer: seed 0 = random
+    let work_root = root.join("harness/target/vc-serialize/fuzz-work");
+    let results: Vec<FuzzRun> = std::thread::scope(|sc| {
+        let hs: Vec<_> = selected
+            .iter()
+            .map(|&(fmt, target)| {
+                let (cargo, work_root) = (&cargo, &work_root);
+                sc.spawn(move || {
+                    let work = work_root.join(target);
+                    let _ = std::fs::remove_dir_all(&work);
+                    if std::fs::create_dir_all(work.join("artifacts")).is_err() || std::fs::create_dir_all(work.join("corpus")).is_err() {
+                        return FuzzRun { fmt, target, outcome: Err(format!("cannot create {}", work.display())) };
+                    }
+                    let out = cargo(&["run"])
+                        .arg(target)
+                        .arg(work.join("corpus"))
+                        .arg(corpus_dir(fmt))
+                        .arg("--")
+                        .arg(format!("-runs={runs}"))
+                        .arg(format!("-max_total_time={max_time_s}"))
+                        .arg(format!("-seed={seed}"))
+                        .arg("-len_control=0")
+                        .arg("-max_len=4096")
+                        .arg("-timeout=60")
+                        .arg("-rss_limit_mb=6144")
+                        .arg("-malloc_limit_mb=12288")
+                        .arg("-print_final_stats=1")
+                        .arg(format!("-artifact_prefix={}/", work.join("artifacts").display()))
+                        .output();
+                    FuzzRun { fmt, target, outcome: out.map(|o| (o, work)).map_err(|e| format!("cannot run the fuzzer: {e}")) }
+                })
+            })
+            .collect();
+        hs.into_iter().map(|h| h.join().expect("fuzz thread")).collect()
+    });
+    for r in results {
+        report_fuzz(ck, r, runs, max_time_s, seed);
+    }
+}
+
+fn report_fuzz(ck: &mut Check, run: FuzzRun, runs: u64, max_time_s: u64, seed: u32) {
+    let (fmt, target) = (run.fmt, run.target);
+    let name = format!("fuzz-{target}");
+    let raw_name = format!("raw-{}", fmt.name());
+    let (out, work) = match run.outcome {
+        Ok(x) => x,
         Err(e) => {
-            ck.inconclusive(format!("{name}: cannot run the fuzzer: {e}"));
+            ck.inconclusive(format!("{name}: {e}"));
             return;
         }
     };
+    let artifacts = work.join("artifacts");
+    let live_corpus = work.join("corpus");
     let log = String::from_utf8_lossy(&out.stderr).to_string();
     let stat = |key: &str| -> u64 {
         log.lines()
@@ -617,17 +646,24 @@ fn fuzz_campaign(ck: &mut Check, fmt: Fmt, target: &str, runs: u64, max_time_s: 
             Err(v) => {
                 if ck.manual_fail(&raw_name, &case, &v.sig, &format!("found by libFuzzer target {target}: {}", v.detail)) {
                     n_viol += 1;
+                } else {
+                    // a known finding (e.g. a slow unit caused by a 4 GiB request)
+                    let _ = std::fs::remove_file(a);
                 }
             }
+            // a time-out / memory report is never a violation by itself
             Ok(_) => match kind.as_str() {
-                "timeout" | "slow" => ck.inconclusive(format!("{name}: libFuzzer reported a slow unit ({} bytes) that the stable harness reads without incident; kept at {}", bytes.len(), a.display())),
-                "oom" | "leak" => ck.inconclusive(format!("{name}: libFuzzer reported {kind} on a unit the stable harness accepts; kept at {}", a.display())),
+                "timeout" | "slow" | "oom" | "leak" => ck.inconclusive(format!(
+                    "{name}: libFuzzer reported `{kind}` on a {}-byte unit that the stable harness reads without incident; kept at {}",
+                    bytes.len(),
+                    a.display()
+                )),
                 _ => {
                     if ck.manual_fail(
                         &raw_name,
                         &case,
                         &format!("fuzz-crash:{target}:not-reproduced-by-stable-harness"),
-                        &format!("libFuzzer/ASan crash artifact {} does not violate the stable oracle; sanitizer report tail: {}", a.display(), tail(&log, 12)),
+                        &format!("libFuzzer/ASan crash artifact {} does not violate the stable oracle; report tail: {}", a.display(), tail(&log, 12)),
                     ) {
                         n_viol += 1;
                     }
@@ -638,15 +674,18 @@ fn fuzz_campaign(ck: &mut Check, fmt: Fmt, target: &str, runs: u64, max_time_s: 
     if !out.status.success() && arts.is_empty() {
         ck.inconclusive(format!("{name}: fuzzer exited with {:?} without an artifact: {}", out.status.code(), tail(&log, 6)));
     }
+    if execs == 0 && out.status.success() {
+        ck.inconclusive(format!("{name}: no executions recorded: {}", tail(&log, 4)));
+    }
     ck.extra(
         &name,
         serde_json::json!({"executions": execs, "new_units": new_units, "live_corpus_files": live, "edge_coverage": cov,
-            "artifacts": arts.len(), "violations": n_viol, "runs_limit": runs, "max_total_time_s": max_time_s, "libfuzzer_seed": seed as u32}),
+            "artifacts": arts.len(), "violations": n_viol, "runs_limit": runs, "max_total_time_s": max_time_s, "libfuzzer_seed": seed}),
     );
     println!("{name}: executions={execs} corpus={live} cov={cov} artifacts={}", arts.len());
     // distinct non-trivial = inputs libFuzzer kept because they reached new coverage
     ck.bulk(&name, execs, live, false, vec![]);
-    if arts.is_empty() {
+    if std::fs::read_dir(&artifacts).map(|r| r.count() == 0).unwrap_or(true) {
         let _ = std::fs::remove_dir_all(&work);
     }
 }
@@ -691,7 +730,7 @@ fn main() {
     ck.assume("the .npy/.zip/.safetensors reference codecs in refcodec.rs implement the published format descriptions");
     ck.set_threads(16);
 
-    let n = ck.pick(20_000, 1_500_000);
+    let n = ck.pick(20_000, 300_000);
     ck.prop("roundtrip-npy", n, || tensor_case(4), roundtrip_npy);
     ck.prop(
         "foreign-npy",
@@ -708,11 +747,11 @@ fn main() {
         },
         foreign_npy,
     );
-    let na = ck.pick(10_000, 600_000);
+    let na = ck.pick(10_000, 150_000);
     ck.prop("roundtrip-npz", na, archive_case, |c| roundtrip_archive(Fmt::Npz, c));
     ck.prop("roundtrip-safetensors", na, archive_case, |c| roundtrip_archive(Fmt::St, c));
 
-    let nm = ck.pick(30_000, 3_000_000);
+    let nm = ck.pick(30_000, 500_000);
     ck.prop("malformed-npy", nm, || mal_case(Fmt::Npy), malformed);
     ck.prop("malformed-npz", nm, || mal_case(Fmt::Npz), malformed);
     ck.prop("malformed-safetensors", nm, || mal_case(Fmt::St), malformed);
@@ -722,11 +761,13 @@ fn main() {
         ck.enumerate(&format!("raw-{}", fmt.name()), false, corpus_cases(fmt).into_iter(), raw);
     }
 
-    if ck.tier() == Tier::Thorough && !ck.is_replay() && vcore::flavour() == "ship" {
-        for (fmt, target) in TARGETS {
-            if ck.selected(&format!("fuzz-{target}")) {
-                fuzz_campaign(&mut ck, fmt, target, 3_000_000, 240);
-            }
+    // The campaign runs once per invocation, from the last flavour's process
+    // (its evidence record is the one that survives the merge). cargo-fuzz
+    // builds the targets itself (release + debug assertions + ASan).
+    if ck.tier() == Tier::Thorough && !ck.is_replay() && vcore::flavour() == "checked" {
+        let selected: Vec<(Fmt, &'static str)> = TARGETS.iter().copied().filter(|(_, t)| ck.selected(&format!("fuzz-{t}"))).collect();
+        if !selected.is_empty() {
+            fuzz_campaign(&mut ck, &selected, 3_000_000, 240);
         }
     }
     ck.finish();
